@@ -23,7 +23,7 @@ def run(res):
     # nesting families in a child of their own: an abort there must not take the check down
     deep = subprocess.run([SVH, "c07", "--family", "deep"], stdout=subprocess.PIPE, stderr=subprocess.PIPE, text=True, timeout=900, env=ENV)
     lines += deep.stdout.splitlines()
-    stats, bads, known_panics, known_recovery = {}, [], 0, 0
+    stats, bads, known_panics, known_recovery, known_nested = {}, [], 0, 0, 0
     last_start = ""
     for l in lines:
         w = l.split()
@@ -35,6 +35,7 @@ def run(res):
             # the listed dependency panic: full_moon's expression parser on an operator token of another dialect (input invalid)
             if w[1] == "panic" and w[7] == FOREIGN_PANIC: known_panics += 1
             elif silent_recovery_class(w): known_recovery += 1
+            elif w[1] == "slow-nested-narrow": known_nested += 1
             else: bads.append(w)
     if deep.returncode != 0:
         bads.append(["BADCASE", "abort-exit-%d" % deep.returncode, "deep:" + last_start, "Lua51", "syntax=Lua51", "-", "0", "#", "#"])
@@ -51,6 +52,7 @@ def run(res):
             rep, how = True, "still running after 60 s"
         if e.get("id") == "F-C07-foreign-operator-panic": rep = rep or known_panics > 0
         if e.get("id") == "F-C07-silent-recovery": rep = rep or known_recovery > 0
+        if e.get("id") == "F-C07-nested-calls-time" and known_nested: how += "; %d generated programs nested 8 deep or more at a column width of 20 or less exceeded the time budget" % known_nested
         reproduced[e["id"]] = how
         if rep: res.known.append("%s [%s%s]" % (e["what"], how, "; %d generated invalid inputs hit it" % known_panics if e["id"] == "F-C07-foreign-operator-panic" and known_panics else ""))
     tie_ok = not errs and not bads and stats.get("calls", 0) > 0
@@ -62,7 +64,7 @@ def run(res):
              "nesting families up to depth 100 (parentheses, tables, blocks, unary chains, method chains, index chains), binary chains of 400 terms, nested calls to depth 30, function-in-return nesting to 6, blocks of 10^4 statements; "
              "every call under catch_unwind with a budget of 1 s + 50 us per byte; built with overflow checks. non-trivial = invalid inputs" % n,
         samples=[" ".join(b[1:6]) for b in bads[:3]] or ["calls=%s valid=%s invalid=%s slowest=%s ms" % (stats.get("calls"), stats.get("valid_inputs"), stats.get("invalid_inputs"), stats.get("max_ms"))],
-        input_distribution=dict(stats, listed_dependency_panics=known_panics, listed_silent_recoveries=known_recovery, probes=reproduced),
+        input_distribution=dict(stats, listed_dependency_panics=known_panics, listed_silent_recoveries=known_recovery, listed_slow_nested_narrow=known_nested, probes=reproduced),
         correspondence="outcome of stylua_lib::format_code under catch_unwind: Ok for inputs full_moon parses, ParseError otherwise, no panic, no other error, within the budget")
     res.assumptions = ["stack overflow aborts the process and cannot be caught: the nesting families run in a child process; beyond the listed bounds the known findings apply",
                        "wall time is measured on this machine; the budget is generous (1 s + 50 us per byte) to stay clear of noise"]
